@@ -86,3 +86,73 @@ Proof.
     match type of IHr with match ?x with _ => _ end = _ => destruct x as [m'|] eqn:E; [|discriminate] end.
     injection IHr as ->. reflexivity.
 Qed.
+
+(* ---- C01 / C17: the two halves put together ---- *)
+From Peppi Require Import Proofs.WriteProof Proofs.Incremental.
+
+Lemma c01_roundtrip r st h :
+  wf_replay r = true -> game_start (r_start r) = ROk st ->
+  exists g, slp_read {| o_skip := false; o_hash := h |} (emit r) = Ok (g, []) /\ slp_write g = Ok (emit r).
+Proof.
+  intros Hwf Hst. exists (game_of {| o_skip := false; o_hash := h |} r st (end_of r)). split.
+  - apply read_full; assumption.
+  - apply c01_write; assumption.
+Qed.
+
+(* C17 on canonical input: the written file declares the actual length of its raw element, re-reads to the same game,
+   and writing that game again is a fixed point *)
+Lemma c17_canonical r st h :
+  wf_replay r = true -> game_start (r_start r) = ROk st ->
+  let g := game_of {| o_skip := false; o_hash := h |} r st (end_of r) in
+  slp_write g = Ok (emit r) /\
+  parse_header (emit r) = Ok (nn (length (raw_of r)), raw_of r ++ emit_meta (r_meta r) ++ [x7d]) /\
+  slp_read {| o_skip := false; o_hash := h |} (emit r) = Ok (g, []).
+Proof.
+  intros Hwf Hst g. destruct (wf_replay_inv r st Hwf Hst) as (_ & _ & _ & _ & _ & _ & _ & Hb).
+  split; [apply c01_write; assumption|]. split; [|apply read_full; assumption].
+  unfold emit. apply parse_header_emit. exact Hb.
+Qed.
+
+(* ---- C12: the one-shot reader is the incremental driver plus a fixed epilogue ---- *)
+Lemma read_dup_inv raw s bs s' bs' : read_dup raw s bs = Ok (s', bs') -> s' = s \/ s' = set_quirk s.
+Proof.
+  unfold read_dup. destruct (ps_bytes_read s <? raw)%N.
+  - destruct (rd_exact_N (raw - ps_bytes_read s) bs) as [[buf r]| | |]; cbn [bind]; try discriminate.
+    destruct (_ && _); intro H; apply ok_inj in H; injection H as <- <-; auto.
+  - intro H. apply ok_inj in H. injection H as <- <-. auto.
+Qed.
+
+Lemma read_tail_inv o bs0 s bs g rest : read_tail o bs0 s bs = Ok (g, rest) ->
+  exists s' hh, g = game_of_state s' hh /\ (s' = s \/ exists m, s' = set_meta s m).
+Proof.
+  unfold read_tail. destruct (rd_u8 bs) as [[b r]| | |]; cbn [bind]; try discriminate.
+  destruct (N.eqb b 85).
+  - unfold parse_metadata, pbind. destruct (expect_bytes sig_meta r) as [[u r1]| | |]; cbn [bind]; try discriminate.
+    destruct (read_map r1) as [[m r2]| | |]; cbn [bind]; try discriminate.
+    destruct (expect_bytes [x7d] r2) as [[u2 r3]| | |]; cbn [bind]; try discriminate.
+    intro H. apply ok_inj in H. injection H as <- <-. eexists _, _. split; [reflexivity|]. right. eexists. reflexivity.
+  - destruct (N.eqb b 125); cbn [bind]; try discriminate.
+    intro H. apply ok_inj in H. injection H as <- <-. eexists _, _. split; [reflexivity|]. left. reflexivity.
+Qed.
+
+Lemma c12_oneshot_is_driver bs g rest h :
+  slp_read {| o_skip := false; o_hash := h |} bs = Ok (g, rest) ->
+  exists raw_len bs1 s0 bs2 n s1 bs3,
+    parse_header bs = Ok (raw_len, bs1) /\ parse_start bs1 = Ok (s0, bs2) /\ drive n s0 bs2 = Ok (s1, bs3) /\
+    g_start g = ps_start s1 /\ g_end g = ps_end s1 /\ g_gecko g = ps_gecko s1 /\
+    g_frames g = ps_frames (close_if s1).
+Proof.
+  rewrite slp_read_eq. intro H.
+  destruct (parse_header bs) as [[raw_len bs1]| | |] eqn:Eh; cbn [bind] in H; try discriminate.
+  destruct (parse_start bs1) as [[s0 bs2]| | |] eqn:Es; cbn [bind] in H; try discriminate.
+  unfold read_skip in H. cbn [o_skip bind] in H.
+  destruct (event_loop (S (length bs2)) raw_len s0 bs2) as [[s1 bs3]| | |] eqn:El; cbn [bind] in H; try discriminate.
+  fold (close_if s1) in H.
+  destruct (read_dup raw_len (close_if s1) bs3) as [[s2 bs4]| | |] eqn:Ed; cbn [bind] in H; try discriminate.
+  apply event_loop_is_drive in El as [n Hn].
+  apply read_dup_inv in Ed. apply read_tail_inv in H as (s3 & hh & -> & Hs3).
+  exists raw_len, bs1, s0, bs2, n, s1, bs3. repeat split; try reflexivity; try exact Hn; try exact Es.
+  all: unfold game_of_state; cbn [g_start g_end g_gecko g_frames];
+    destruct (close_if_proj s1) as (C1 & C2 & C3 & C4 & C5 & C6 & C7 & C8 & C9 & C10);
+    destruct Hs3 as [->|[m ->]]; destruct Ed as [->| ->]; cbn [set_meta set_quirk ps_start ps_end ps_gecko ps_frames]; congruence.
+Qed.
